@@ -864,8 +864,10 @@ class DAGRunConcurrentManager(DAGRunManagerLike):
 
                 if dag.is_oneof:
                     # Inside a OneOf branch the error is stored as a node result, so the task that waits for
-                    # the branch has to be woken up explicitly
+                    # the branch has to be woken up explicitly. The same goes for the launch loop of the branch,
+                    # which may be waiting for a consumer of the subgraph (e.g. inside a switch case of the branch).
                     await self.__unlock_itself(dag.dest)
+                    await self.__unlock_descendants(node_id)
 
                 return
 
